@@ -1,3 +1,4 @@
+use super::util::opt_spacelike;
 use super::value::value_expression;
 use super::{PResult, Span, input_to_str, input_to_string};
 use crate::sass::{SassString, StringPart};
@@ -371,7 +372,8 @@ fn normalized_escaped_char_q(input: Span) -> PResult<String> {
 
 pub fn string_part_interpolation(input: Span) -> PResult<StringPart> {
     let (input, expr) =
-        delimited(tag("#{"), value_expression, tag("}")).parse(input)?;
+        delimited(terminated(tag("#{"), opt_spacelike), value_expression, tag("}"))
+            .parse(input)?;
     Ok((input, StringPart::Interpolation(expr)))
 }
 
